@@ -387,7 +387,8 @@ def build_circuit(case):
             nc = NCTRL[code]
             kw = {}
             if op["cc"] is not None and (not case.get("assign") or op["ccv"] is None):
-                kw["classical_controls"] = list(op["cc"])
+                kw["classical_controls"] = cc_as(case.get("ccform") if len(op["cc"]) == 1 or
+                                                 case.get("ccform") not in ("int", "npint") else None, op["cc"])
                 if op["ccv"] is not None:          # None: left at the default of Gate.__init__
                     kw["classical_control_value"] = ccv_as(case.get("ccvtype"), op["ccv"])
             if case.get("path") == "class":
@@ -419,6 +420,21 @@ def ccv_as(kind, v):
     if kind == "arr0":
         return np.array(v)
     return {"i64": np.int64, "i32": np.int32, "u8": np.uint8}[kind](v)
+
+
+def cc_as(form, cc):
+    """the classical controls `cc` (a list) in another container form; a bare (numpy) int only for a single control"""
+    if form in (None, "list"):
+        return list(cc)
+    if form == "tuple":
+        return tuple(cc)
+    if form == "array":
+        return np.array(cc)
+    if form == "int":
+        return int(cc[0])
+    if form == "npint":
+        return np.int64(cc[0])
+    raise ValueError(form)
 
 
 def versions_of(case):
